@@ -13,7 +13,7 @@ from vlib import log
 PROP = "C18"
 PKG = "limitsx"
 
-ENV_OPS = {"Arrive", "Disconnect", "StopBegin", "ThAdd", "ThRefuse", "ThCheck", "AllowCheck", "Handshake",
+ENV_OPS = {"Arrive", "Disconnect", "CloseListener", "StopBegin", "ThAdd", "ThRefuse", "ThCheck", "AllowCheck", "Handshake",
            "Handle", "ThDone", "AddPeer"}
 FAIL_OUT = {"lost", "rejected", "dropsub", "dropshut", "droppeer"}
 
@@ -47,7 +47,7 @@ def leg_m(wd, tier):
             log("  M: %s: %d distinct states, %d transitions, depth %d, %.1fs" % (what, r.distinct, r.generated, r.depth, r.wall))
             out.append(r)
     # the implementation-shaped connection lifecycle must violate PeerCaps in the model (design-level counterexample)
-    r = vlib.run_tlc(wd, "MCLimits", "Limits_conn_impl.cfg", workers=2, timeout=600)
+    r = vlib.run_tlc(wd, "MCLimits", "Limits_conn_cap.cfg", workers=2, timeout=600)
     if r.exit == 0 or r.violated != "PeerCaps":
         raise vlib.Infra("the implementation-shaped AllowCheck/AddPeer split was expected to violate PeerCaps in TLC, got exit=%s violated=%s\n%s"
                          % (r.exit, r.violated, r.out[-1500:]))
@@ -63,7 +63,11 @@ def macro_graph(edges):
     next settled state; the graph must be confluent (one settled state per macro step)."""
     def isenv(e):
         op = e["act"]["op"]
-        return op in ENV_OPS or (op in ("Abort", "RemovePeer") and e["from"]["stop"] == "no")
+        if op == "Abort":
+            return e["from"]["stop"] == "no"
+        if op == "RemovePeer":          # the remote hangs up (internal when Run's teardown closed the transport)
+            return not e["from"]["dead"][e["act"]["p"]]
+        return op in ENV_OPS
     succ = collections.defaultdict(list)
     states = {}
     inits = []
@@ -127,7 +131,7 @@ def rpc_obs(s):
                 inside.append(name)
             if o == "answered":
                 answered.append(name)
-            elif o in FAIL_OUT or (s["peersClosed"] and st != "new"):
+            elif o in FAIL_OUT or ((s["peersClosed"] or not s["loopOn"][p]) and st != "new"):
                 failed.append(name)
     return {"inside": sorted(inside), "answered": sorted(answered), "failed": sorted(failed),
             "closed": s["stop"] == "returned", "sub": {k: v for k, v in s["sub"].items() if v}}
@@ -177,7 +181,10 @@ def leg_r_rpc(wd, tier, binary, verdict, mutate=None):
 def conn_obs(s):
     return {"peers": sorted(c for c, v in s["conn"].items() if v in ("peer", "running")),
             "rejected": sorted(c for c, v in s["conn"].items() if v == "rejected"),
-            "closed": s["stop"] == "returned"}
+            "closed": s["stop"] == "returned",
+            # Close has been called, nothing is held by the harness, and still it cannot return: only a peer that
+            # Run's teardown did not close keeps the group alive (until the REMOTE hangs up)
+            "stuck": s["stop"] in ("closed", "waiting") and all(v not in ("checked", "shaken") for v in s["conn"].values())}
 
 
 def walk_macro(macro, lim_pred, ops):
@@ -218,13 +225,14 @@ def leg_r_conn(wd, tier, binary, verdict):
     per_group = 25 if tier == "quick" else None
     conns = sorted(macro[0]["from"]["conn"])
     mk = lambda p: [{"act": e["act"], "obs": conn_obs(e["to"])} for e in p]
+    nstuck = sum(1 for m in macro if conn_obs(m["to"])["stuck"])
     for lim, es, paths in cover_by_config(macro, rng, 30):
         total += len(paths)
         paths = sample_paths(paths, per_group, rng)
         groups.append({"maxIn": lim["maxIn"], "conns": conns, "paths": [mk(p) for p in paths]})
         npaths += len(paths)
     # TLC's own PeerCaps counterexample (Limits_conn_impl.cfg), replayed literally, first path of its group
-    cx = vlib.run_tlc(wd, "MCLimits", "Limits_conn_impl.cfg", workers=1, timeout=600, tag="conn_cx")
+    cx = vlib.run_tlc(wd, "MCLimits", "Limits_conn_cap.cfg", workers=1, timeout=600, tag="conn_cx")
     ops = [(o, p) for o, p in tlc_counterexample_ops(cx.out) if o in ENV_OPS and p in conns]
     cxlim = None
     import re
